@@ -292,6 +292,9 @@ M("c12_center_filler_sign", "C12", "ak/ppobj.py",
 M("c12_break_by_compares_first_field_only", "C12", "ak/ppobj.py",
   "                prev_break_by_values != cur_break_by_values\n",
   "                prev_break_by_values[:1] != cur_break_by_values[:1]\n")
+M("c12_set_fmt_loses_break_by", "C12", "ak/ppobj.py",
+  "                    c.fmt_modifier, c.break_by,\n                    c.min_w, c.max_w))\n\n        self.columns = columns",
+  "                    c.fmt_modifier, False,\n                    c.min_w, c.max_w))\n\n        self.columns = columns")
 M("c12_footer_width_minus_2", "C12", "ak/ppobj.py",
   "                [cp.text(self.footer)], table_width, ALIGN_LEFT, cp))",
   "                [cp.text(self.footer)], table_width - 2, ALIGN_LEFT, cp))")
